@@ -11,6 +11,25 @@ from hv.pyvc.engine import (NONE, ExcVal, Executor, Model, Obj, Path, PyConst, S
 IntSet = z3.SetSort(z3.IntSort())
 
 
+def target(f):
+    """A VC-generation target.  Code outside the generator's subset (`Unsupported`, or a function that can no longer be found)
+    leaves the target's obligations undecided (exit 2, with the reason) - it is neither a crash of the checker nor, ever, a violation;
+    the rest of the check still runs, so a violation found elsewhere is still reported."""
+    import functools
+
+    @functools.wraps(f)
+    def run(chk, *a, **k):
+        try:
+            return f(chk, *a, **k)
+        except (Unsupported, LookupError) as e:
+            prefix = k.get("prefix") or f.__defaults__[0]
+            chk.ob(f"{prefix}/VC generation", None, "pyvc", "proved",
+                   detail=f"the current source of the function is outside the VC generator's subset or shape ({type(e).__name__}: {e}); "
+                          "its obligations are undecided on this tree")
+            return None
+    return run
+
+
 def _src(path, qual):
     tree, fn = load_function(path, qual, REPO)
     return tree, fn
@@ -28,6 +47,7 @@ def run_fn(ex, st, fn, args):
 # ===============================================================================================================
 # K1  HyASTCompiler.get_anon_var
 # ===============================================================================================================
+@target
 def k1(chk, prefix="K1/get_anon_var"):
     tree, fn = _src("hy/compiler.py", "HyASTCompiler.get_anon_var")
     chk.fn("hy/compiler.py::HyASTCompiler.get_anon_var")
@@ -156,6 +176,7 @@ class HyReprModel(Model):
         return NotImplemented
 
 
+@target
 def c28(chk, prefix="hy_repr", concrete=None):
     tree, fn = _src("hy/core/hy_repr.hy", "hy_repr")
     chk.fn("hy/core/hy_repr.hy::hy-repr (as compiled by hy_compile)")
@@ -332,6 +353,7 @@ class GensymModel(Model):
         return NotImplemented
 
 
+@target
 def c38(chk, prefix="gensym", concrete=None):
     tree, fn = _src("hy/core/util.hy", "gensym")
     chk.fn("hy/core/util.hy::gensym (as compiled by hy_compile)")
@@ -484,6 +506,7 @@ class GetcModel(Model):
         return NotImplemented
 
 
+@target
 def c21_getc(chk, prefix="getc"):
     tree, fn = _src("hy/reader/reader.py", "Reader.getc")
     chk.fn("hy/reader/reader.py::Reader.getc")
@@ -615,6 +638,7 @@ def _genexp_patch(ex):
     ex.ev_Lambda = lambda st, e: [Path(st, "normal", Obj("identity-lambda"))]
 
 
+@target
 def c29(chk, prefix="as_model"):
     # --- as_model
     tree, fn = _src("hy/models.py", "as_model")
@@ -758,6 +782,7 @@ def _symbolic_prelude(ex, st, outer, inner_name, keep=()):
             st.frame.vars[stt.targets[0].id] = ps[0].val
 
 
+@target
 def c23_quote_closing(chk, prefix="quote_closing"):
     """Per string prefix (the finite set the method accepts; its own validity test is run natively): the closure's free
     variables are whatever the real prelude of prefixed_string computes for that prefix; `escaping` and the character are
@@ -839,6 +864,7 @@ def c23_quote_closing(chk, prefix="quote_closing"):
     chk.canary("C23: `escaping is set (not toggled) by a backslash` is refuted", canary_refuted)
 
 
+@target
 def c23_delim_closing(chk, prefix="delim_closing"):
     tree, outer = _src("hy/reader/hy_reader.py", "HyReader.bracketed_string")
     fn = _inner_def(outer, "delim_closing")
@@ -1016,6 +1042,7 @@ class TryParseModel(Model):
         return NotImplemented
 
 
+@target
 def c18_try_parse(chk, prefix="try_parse_one_form"):
     import hy.reader.exceptions as hre
     tree, fn = _src("hy/reader/hy_reader.py", "HyReader.try_parse_one_form")
@@ -1147,6 +1174,7 @@ class FComponentModel(Model):
         return NotImplemented
 
 
+@target
 def c19_read_fcomponent(chk, prefix="read_fcomponent"):
     import hy.reader.exceptions as hre
     tree, fn = _src("hy/reader/hy_reader.py", "HyReader.read_fcomponent")
@@ -1376,6 +1404,7 @@ class OuterVarModel(Model):
         return E.LoopInv("scope-chain invariant (defined = names bound by the scopes walked so far, undefined = the others, in order; no scope modified)", inv, havoc)
 
 
+@target
 def c07_visit_outervar(chk, prefix="visit_OuterVar", concrete=None):
     tree, fn = _src("hy/scoping.py", "ResolveOuterVars.visit_OuterVar")
     chk.fn("hy/scoping.py::ResolveOuterVars.visit_OuterVar")
